@@ -7,6 +7,7 @@ from __future__ import annotations
 
 import hashlib
 import os
+import sqlite3
 
 from . import core, repo
 
@@ -314,8 +315,24 @@ def histories(ctx, model_ok, tmp, mode, trust=False):
             files = {k: v for k, v in _listing(root).items() if "sqlite" not in k and k != "butler.yaml" and not k.startswith("archive/")}
             unknown = [f for f in files if f not in pathno]
             disk = {pathno[f] for f in files if f in pathno}
+            # the datastore's own bookkeeping, read straight from its tables: which datasets have file records / a location row,
+            # which wait in the trash table, and which path each record names
+            by_uuid = {refs[i].id.hex: i for i in refs}
+            con = sqlite3.connect(f"file:{root}/gen3.sqlite3?mode=ro", uri=True)
+            try:
+                rec_rows = con.execute("SELECT dataset_id, path FROM file_datastore_records").fetchall()
+                loc_rows = {r_[0] for r_ in con.execute("SELECT dataset_id FROM dataset_location")}
+                trash_rows = {r_[0] for r_ in con.execute("SELECT dataset_id FROM dataset_location_trash")}
+            finally:
+                con.close()
+            db_live = {by_uuid.get(u_, u_) for u_ in loc_rows}
+            db_trash = {by_uuid.get(u_, u_) for u_ in trash_rows}
+            db_recs = {by_uuid.get(u_, u_) for u_, _ in rec_rows}
             req.append("art state")
-            impl.append(f"disk={fmt(disk)} live={fmt(live)} trash={fmt(trashed)} recs={len(live) + len(trashed)}")
+            if all(isinstance(x, int) for x in db_live | db_trash):
+                impl.append(f"disk={fmt(disk)} live={fmt(db_live)} trash={fmt(db_trash)} recs={len(rec_rows)}")
+            else:
+                impl.append("rows-of-unknown-datasets")
             # oracle: an owned artifact is present iff a stored or trashed-but-not-emptied dataset refers to it
             owners = {}
             for i in live | trashed:
@@ -327,6 +344,16 @@ def histories(ctx, model_ok, tmp, mode, trust=False):
             shared_partial = any(len({j for j in refs if art[j] == p and kind_of[j] != "direct"}) > len(o) for p, o in owners.items())
             partial = partial or shared_partial or (trust and any(o.startswith(("purge", "unstore")) for o in ops) and bool(ext_files or shared_partial))
             problems = []
+            if db_live != live or db_trash != trashed or db_recs != live | trashed:
+                problems.append(f"datastore tables: location rows {sorted(db_live, key=str)}, trash rows {sorted(db_trash, key=str)}, file records {sorted(db_recs, key=str)}; "
+                                f"the history stored {sorted(live)} and trashed {sorted(trashed)}")
+            for u_, path_ in rec_rows:
+                i_ = by_uuid.get(u_)
+                if i_ is not None and art.get(i_) is not None:
+                    want_p = art[i_] if kind_of[i_] != "direct" else None
+                    got_p = path_.split("#")[0]
+                    if want_p is not None and got_p != want_p:
+                        problems.append(f"the record of dataset {i_} names {got_p}, its artifact is {want_p}")
             for p in set(owners) - set(files):
                 problems.append(f"artifact {p} is gone although datasets {sorted(owners[p])} still refer to it")
             for p in set(files) - set(owners):
